@@ -27,7 +27,8 @@ def keep(name, prop, src, needs, ran):
 def run(name, check=None):
     d = os.path.join(VERIF, "seeded", name)
     meta = json.load(open(os.path.join(d, "meta.json")))
-    check = check or meta.get("detected_by_check") or meta["property"]
+    default_check = meta.get("detected_by_check") or meta["property"]
+    check = check or default_check
     ev = os.path.join(VERIF, "evidence", check + ".json")
     saved = open(ev).read() if os.path.exists(ev) else None
     # SEED_REPO=<dir>: apply the patch in a scratch worktree of /repo instead (the checks follow VERIF_REPO),
@@ -48,12 +49,14 @@ def run(name, check=None):
         if saved is not None:
             open(ev, "w").write(saved)
     lines = [l for l in r.stdout.splitlines() if l.startswith("VIOLATION")]
-    meta["detected"] = r.returncode == 1 and bool(lines)
-    meta["caught_by"] = sorted({l.split("#", 1)[1].strip() if "#" in l else l for l in lines})[:8]
-    meta["check_exit"] = r.returncode
-    json.dump(meta, open(os.path.join(d, "meta.json"), "w"), indent=1)
-    print(name, "exit", r.returncode, "detected" if meta["detected"] else "MISSED")
-    for l in meta["caught_by"][:4]:
+    detected = r.returncode == 1 and bool(lines)
+    caught = sorted({l.split("#", 1)[1].strip() if "#" in l else l for l in lines})[:8]
+    if check == default_check:
+        # only the property's own check (or the one recorded as reporting it) updates the record
+        meta["detected"], meta["caught_by"], meta["check_exit"] = detected, caught, r.returncode
+        json.dump(meta, open(os.path.join(d, "meta.json"), "w"), indent=1)
+    print(name, "[%s]" % check, "exit", r.returncode, "detected" if detected else "MISSED")
+    for l in caught[:4]:
         print("   ", l[:160])
     if r.returncode not in (0, 1):
         print(r.stdout[-800:], r.stderr[-800:])
